@@ -1,6 +1,8 @@
 package main
 
 import (
+	"hash/crc32"
+	"archive/zip"
 	"bytes"
 	"context"
 	"encoding/binary"
@@ -24,6 +26,7 @@ var documentedExit = map[int]bool{0: true, 1: true, 3: true, 4: true, 5: true, 6
 
 // zipfuzzExec: recipe "zipfuzz <mut> <fileset>" — mut: none | flip:<off>:<bit> | trunc:<n> | extralen:<k>:<delta> | cdir:<off>:<val>
 func zipfuzzExec(c *Ctx, op string) {
+	c.Begin(op)
 	f := strings.Fields(op)
 	mut := f[1]
 	fsx := parseFilesetTok(f[2])
@@ -90,6 +93,43 @@ func zipfuzzExec(c *Ctx, op string) {
 				b[o] = byte(arg(3))
 			}
 		}
+	case "liesize":
+		// a structurally valid zip (written with zip.Writer.CreateRaw) in which one entry declares an uncompressed size
+		// that is not the size of its data: huge (zip64), negative as int64, zero, off by one
+		sizes := []uint64{1<<63 + 6, 1 << 62, 1 << 48, 1 << 32, 0xffffffff, 0, 1, 7}
+		var zb bytes.Buffer
+		zw := zip.NewWriter(&zb)
+		victim := arg(1) % len(fsx)
+		for i, e := range fsx {
+			name := e.Name
+			data := e.Content
+			mode := os.FileMode(e.Perms & 0777)
+			switch e.Kind {
+			case 'd':
+				name += "/"
+				mode |= os.ModeDir
+				data = nil
+			case 'L':
+				mode |= os.ModeSymlink
+				data = []byte(e.Link)
+			}
+			if e.Name == "" {
+				name = "./"
+			}
+			fh := &zip.FileHeader{Name: name, Method: zip.Store}
+			fh.SetMode(mode)
+			fh.CRC32 = crc32.ChecksumIEEE(data)
+			fh.CompressedSize64 = uint64(len(data))
+			fh.UncompressedSize64 = uint64(len(data))
+			if i == victim {
+				fh.UncompressedSize64 = sizes[arg(2)%len(sizes)]
+			}
+			if w, e := zw.CreateRaw(fh); e == nil {
+				w.Write(data)
+			}
+		}
+		zw.Close()
+		b = zb.Bytes()
 	case "garbage":
 		b = []byte("PK\x03\x04 this is not a zip, not really" + strings.Repeat("x", arg(1)%200))
 	case "tarbytes":
@@ -167,6 +207,9 @@ func zipfuzzEngine(c *Ctx) {
 		for i := 0; i < 6; i++ {
 			zipfuzzExec(c, fmt.Sprintf("zipfuzz trunc:%d %s", c.Intn(1<<16), tok))
 		}
+		for i := 0; i < 10; i++ {
+			zipfuzzExec(c, fmt.Sprintf("zipfuzz liesize:%d:%d %s", c.Intn(8), c.Intn(8), tok))
+		}
 		zipfuzzExec(c, "zipfuzz garbage:17 "+tok)
 		zipfuzzExec(c, "zipfuzz tarbytes "+tok)
 	}
@@ -176,6 +219,7 @@ func zipfuzzEngine(c *Ctx) {
 // cli: argument vectors and failure causes through the rio binary built from the working tree.
 // recipe: "cli <hex(arg)> <hex(arg)> ..."  ("@W@" = a scratch dir, "@GOODWARE@" / "@GOODID@" = a packed ware)
 func cliExec(c *Ctx, op string) {
+	c.Begin(op)
 	f := strings.Fields(op)
 	caseCounter++
 	base := filepath.Join(c.Work, fmt.Sprintf("cl%d", caseCounter))
